@@ -9,10 +9,9 @@ Text = `ast.unparse` of the statement / the reconstructed header line; a `with X
 pseudo statement `end with X` after its body (the `__exit__`).  Order = source order (pre-order).
 
 lean/PoxModel/Model/HandoffSites.lean holds the model's table: the same lists, each statement tagged with the model
-action (site) it is, or marked as a call / thread-local / not modelled.  `Pox.C07.sites_agree : Generated = Model`
-is proved by `decide`, so a statement that disappears, changes, moves, or a new attribute-touching statement inside
-one of these functions breaks the build.  The line numbers are used by the harness only (harness/c07.py) to map
-`sys.settrace` line events and primitive operations to sites.
+action (site) it is, or marked as a call / thread-local / not modelled.  The texts are EVIDENCE (they change with every
+refactoring); the obligation proved by `decide` is `Pox.C07.ops_agree : Generated.ops = Model.ops` on the structural
+summary defined further down (`ops`).  Line numbers are used by the harness for anchors/coverage and diagnostics only.
 """
 import ast, os
 
@@ -158,6 +157,93 @@ def extract(repo):
     return res
 
 
+# ---------------------------------------------------------------------------------------------------------------------
+# structural summary: per listed function, the BAG of operations on (potentially) shared state, helpers inlined
+#
+# The statement texts above change with every refactoring (a helper extracted, a local alias, an early return).  What the
+# model depends on is WHICH operations a function performs on shared objects; their order and the conditions under which
+# they happen are tied dynamically (harness/c07.py: every operation executed on a shared object must be the model's next
+# action of that thread).  So the obligation compared with the model by `decide` is this summary, which is invariant under
+# local renames, log calls, reordering of branches and extraction of helpers (inlined up to depth 3):
+#   method calls named like an operation of a deque / set / lock / event / queue / pinger / thread ("append", "ping", ...),
+#   `with` (acquire+release), `in` (contains), len(), attribute stores ("write:attr"), creation of objects ("new:Class"),
+#   yield / raise / assert, and calls of other listed functions ("call:name").
+SHARED_OPS = {"append", "appendleft", "popleft", "pop", "remove", "clear", "extend", "extendleft", "insert", "rotate", "add", "discard",
+              "update", "put", "get", "get_nowait", "put_nowait", "empty", "qsize", "set", "wait", "is_set", "acquire", "release", "locked",
+              "ping", "pongAll", "pong_all", "pong", "select", "start", "join", "read", "write", "setdefault", "popitem", "notify",
+              "notify_all", "notifyAll"}
+LISTED_NAMES = {q.split(".")[-1] for _, q in FUNCTIONS}
+INLINE_DEPTH = 3
+
+
+def _defs(tree):
+    """name -> [FunctionDef] for every function / method defined anywhere in the file"""
+    d = {}
+    for n in ast.walk(tree):
+        if isinstance(n, (ast.FunctionDef, ast.AsyncFunctionDef)):
+            d.setdefault(n.name, []).append(n)
+    return d
+
+
+def _ops_of(fn, defs, depth, seen, out):
+    alias = {}
+    for n in ast.walk(fn):                        # local aliases of bound methods / functions:  name = <expr>.attr  |  name = other
+        if isinstance(n, ast.Assign) and len(n.targets) == 1 and isinstance(n.targets[0], ast.Name):
+            if isinstance(n.value, ast.Attribute): alias[n.targets[0].id] = n.value.attr
+    def visit(n):
+        if isinstance(n, (ast.FunctionDef, ast.AsyncFunctionDef, ast.ClassDef, ast.Lambda)) and n is not fn:
+            return                                   # nested definitions are summarised where they are called
+        if isinstance(n, (ast.With, ast.AsyncWith)):
+            out.extend(["with"] * len(n.items))
+        elif isinstance(n, ast.Compare):
+            out.extend("contains" for o in n.ops if isinstance(o, (ast.In, ast.NotIn)))
+        elif isinstance(n, (ast.Yield, ast.YieldFrom)): out.append("yield")
+        elif isinstance(n, ast.Raise): out.append("raise")
+        elif isinstance(n, ast.Assert): out.append("assert")
+        elif isinstance(n, (ast.Assign, ast.AugAssign, ast.AnnAssign)):
+            tg = n.targets if isinstance(n, ast.Assign) else [n.target]
+            for t in tg:
+                for e in ast.walk(t):
+                    if isinstance(e, ast.Attribute) and isinstance(e.ctx, ast.Store): out.append("write:" + e.attr)
+        elif isinstance(n, ast.Call):
+            f = n.func
+            name = f.attr if isinstance(f, ast.Attribute) else alias.get(f.id, f.id) if isinstance(f, ast.Name) else None
+            method = isinstance(f, ast.Attribute) or (isinstance(f, ast.Name) and f.id in alias)
+            if name is not None and not (_root(f) in NOISE):
+                if name == "len" and isinstance(f, ast.Name): out.append("len")
+                elif name in SHARED_OPS and method: out.append(name)
+                elif name in SHARED_OPS: pass                                           # a builtin such as set()
+                elif name in LISTED_NAMES: out.append("call:" + name)
+                elif name[:1].isupper() and not name.endswith(("Error", "Exception", "Exit")): out.append("new:" + name)
+                elif len(defs.get(name, [])) == 1 and depth < INLINE_DEPTH and name not in seen:
+                    _ops_of(defs[name][0], defs, depth + 1, seen | {name}, out)        # a helper: its operations are the caller's
+        for ch in ast.iter_child_nodes(n):
+            visit(ch)
+    for st in fn.body:
+        visit(st)
+
+
+def ops(repo):
+    """-> [(key, sorted [(op, count)])] for the listed functions"""
+    trees, res = {}, []
+    for rel, qual in FUNCTIONS:
+        if rel not in trees:
+            try:
+                trees[rel] = ast.parse(open(os.path.join(repo, rel)).read())
+            except (OSError, SyntaxError):
+                trees[rel] = None
+        tree = trees[rel]
+        fn = _find(tree, qual) if tree is not None else None
+        if fn is None:
+            res.append((key(rel, qual), [("<function not found>", 1)])); continue
+        out = []
+        _ops_of(fn, _defs(tree), 0, {fn.name}, out)
+        bag = {}
+        for o in out: bag[o] = bag.get(o, 0) + 1
+        res.append((key(rel, qual), sorted(bag.items())))
+    return res
+
+
 def key(rel, qual):
     return os.path.basename(rel)[:-3] + "." + qual
 
@@ -177,6 +263,10 @@ def render(repo):
         rows.append("  (%s, [\n%s])" % (lean_str(key(rel, qual)),
                                         ",\n".join("      " + lean_str(t) for t, _ in sts)))
     lines.append(",\n".join(rows))
+    lines += ["]", "", "/-- per function: the bag of operations on shared state, helpers inlined (see harness/translate/sites.py) -/",
+              "def ops : List (String × List (String × Nat)) := ["]
+    lines.append(",\n".join("  (%s, [%s])" % (lean_str(k), ", ".join("(%s, %d)" % (lean_str(o), c) for o, c in bag))
+                            for k, bag in ops(repo)))
     lines += ["]", "", "end Pox.Generated.Sites", ""]
     return "\n".join(lines), ex
 
@@ -188,3 +278,5 @@ if __name__ == "__main__":
         print(key(rel, qual), span)
         for t, l in sts:
             print("   %4d  %s" % (l, t))
+    for k, bag in ops(sys.argv[1] if len(sys.argv) > 1 else "/repo"):
+        print(k, bag)
